@@ -351,7 +351,7 @@ class Effects:
                     stack.append(key)
         return pred
 
-    def block_writes(self, q: str, lo: int, hi: int):
+    def block_writes(self, q: str, lo: int, hi: int, calls_only: bool = False):
         """Fields of pre-existing objects written by the statements of function q between source lines
         lo..hi, directly or through calls made there (transitively).  Writes to objects constructed inside
         the examined code (x = Cls(...); x.m(); writes through `self` inside Cls.__init__ / x.m) are not
@@ -359,6 +359,8 @@ class Effects:
         fe = self.funcs[q]
         out = []
         for recv, f, node, cls in fe.writes:
+            if calls_only:
+                break
             if lo <= node.lineno <= hi and cls != "<fresh>":
                 out.append((f, cls, [q], f"{fe.info.where(node)}"))
         roots = []
